@@ -383,6 +383,17 @@ func genTree(g *core.G, prefix string, rooted int) *core.N {
 	if rooted == 2 && g.Chance(0.25) {
 		n = rerooted(g, n)
 	}
+	// p-values next to supports (written "support/pvalue" by the Newick writer)
+	var pv func(x *core.N)
+	pv = func(x *core.N) {
+		if x.E != nil && x.E.Sup != -1 && g.Chance(0.5) {
+			x.E.Pval = float64(g.Intn(17)) / 16
+		}
+		for _, k := range x.Kids {
+			pv(k)
+		}
+	}
+	pv(n)
 	if g.Chance(0.03) { // one tip without a name
 		var leaves []*core.N
 		var rec func(x *core.N)
@@ -501,12 +512,22 @@ func doSubTree(c *core.Ctx, n *core.N, path []int) {
 	c.Emit("C15.subtree", n.Dump(), pathStr(path), oc, d, wf, da, txt0, text(t), ia, sh)
 }
 
+// nodeIds: every value field of Node and Edge the α dump does not carry — node id and depth; per branch the
+// two tip counts and the hash code (set by ReinitIndexes) — in Nodes() / Edges() order.
 func nodeIds(t *tree.Tree) string {
-	var ids []int
+	var b strings.Builder
 	for _, x := range t.Nodes() {
-		ids = append(ids, x.Id())
+		d, err := x.Depth()
+		if err != nil {
+			d = -1
+		}
+		fmt.Fprintf(&b, "%d/%d,", x.Id(), d)
 	}
-	return core.IntList(ids)
+	b.WriteByte('|')
+	for _, e := range t.Edges() {
+		fmt.Fprintf(&b, "%d/%d/%d,", e.NumTipsLeft(), e.NumTipsRight(), e.HashCode())
+	}
+	return b.String()
 }
 
 func doClone(c *core.Ctx, indexed bool, setIds bool, n *core.N) {
@@ -868,6 +889,9 @@ func Run(c *core.Ctx) {
 		cloneCases(c)
 		cloneCases(c)
 		heapCases(c)
+		heapCases(c)
+		heapOpCases(c)
+		heapOpCases(c)
 		heapOpCases(c)
 	}
 	h := c.Scale(400, 7500)
@@ -1098,6 +1122,8 @@ func doHeapOp(c *core.Ctx, op string, n *core.N, arg string, n2 *core.N) {
 			err = t.Merge(t2)
 		case "rmsingle":
 			t.RemoveSingleNodes()
+		case "prune":
+			err = t.RemoveTips(false, arg)
 		case "insid":
 			var tip *tree.Node
 			if tip, err = t.TipNode(arg); err == nil {
@@ -1116,7 +1142,11 @@ func doHeapOp(c *core.Ctx, op string, n *core.N, arg string, n2 *core.N) {
 
 func heapOpCases(c *core.Ctx) {
 	g := c.G
-	switch g.Intn(4) {
+	switch g.Intn(5) {
+	case 4:
+		n := genTree(g, "t", 2)
+		tips := tipsBelowRoot(n)
+		doHeapOp(c, "prune", n, tips[g.Intn(len(tips))], nil)
 	case 3:
 		n := genTree(g, "t", 2)
 		o := opts(g)
